@@ -26,4 +26,57 @@ theorem list_only_grows :
   decide
 
 
+/-! ### Iterators -/
+
+/-- What one call of an iterator answers. -/
+inductive Yield (C : Type)
+  /-- `(key, r.m[key], true)` -/
+  | value (k : Bytes) (c : Option C)
+  /-- `(key, r.m[key].Raw(), true)` -/
+  | raw (k : Bytes) (c : Option C)
+  /-- `("", nil, false)` -/
+  | done
+
+/-- One call of the iterator `name`, read off the facts: the cursor is the list of the keys still to come (the
+    element `e` and what follows it); the answer and the cursor afterwards.  `none`: unknown, or no such iterator. -/
+def iterStepG {C : Type} (its : List (String × Iterator)) (m : Bytes → Option C) :
+    Nat → String → List Bytes → Option (Yield C × List Bytes)
+  | 0, _, _ => none
+  | fuel + 1, name, keys =>
+    match its.lookup name with
+    | some .listFrontToBack =>
+      match keys with
+      | [] => some (.done, [])
+      | k :: rest => some (.value k (m k), rest)
+    | some .listFrontToBackRaw =>
+      match keys with
+      | [] => some (.done, [])
+      | k :: rest => some (.raw k (m k), rest)
+    | some (.rawOf of) =>
+      match iterStepG its m fuel of keys with
+      | some (.value k c, rest) => some (.raw k c, rest)
+      | some (.done, rest) => some (.done, rest)
+      | _ => none
+    | _ => none
+
+/-- `IterValues` answers the next key of the list with the Value the map holds for it and moves on, `Iter` the
+    same with the raw value, both report the end after the last key — whether `Iter` goes through `IterValues`
+    or walks the list itself.  (`LRow.iter` is the list of these answers: `r.l.map fun k => (k, r.m k)`.) -/
+theorem iter_either {C : Type} (its : List (String × Iterator))
+    (h : its = [("IterValues", .listFrontToBack), ("Iter", .rawOf "IterValues")]
+       ∨ its = [("IterValues", .listFrontToBack), ("Iter", .listFrontToBackRaw)])
+    (m : Bytes → Option C) (keys : List Bytes) :
+    iterStepG its m 2 "IterValues" keys
+        = some (match keys with | [] => (.done, []) | k :: rest => (.value k (m k), rest))
+    ∧ iterStepG its m 2 "Iter" keys
+        = some (match keys with | [] => (.done, []) | k :: rest => (.raw k (m k), rest)) := by
+  rcases h with h | h <;> subst h <;> cases keys <;> exact ⟨rfl, rfl⟩
+
+theorem iterators_as_modelled {C : Type} (m : Bytes → Option C) (keys : List Bytes) :
+    iterStepG Gen.rowFacts.iterators m 2 "IterValues" keys
+        = some (match keys with | [] => (.done, []) | k :: rest => (.value k (m k), rest))
+    ∧ iterStepG Gen.rowFacts.iterators m 2 "Iter" keys
+        = some (match keys with | [] => (.done, []) | k :: rest => (.raw k (m k), rest)) :=
+  iter_either Gen.rowFacts.iterators (by decide) m keys
+
 end Jl.RowTie
